@@ -166,7 +166,7 @@ type Result struct {
 	N          int   // encoded extent if Class == OK
 	Class      int   // first defect in left-to-right order
 	MaxLevel   int   // deepest container nesting level entered (top-level container = 1)
-	MaxAcquire int64 // largest contiguous request an allocating implementation could make (unsigned reading)
+	MaxAcquire int64 // largest contiguous request a correct allocating implementation could make (non-negative declared sizes only)
 	Fields     int   // structural items parsed (headers, size fields, string lengths)
 	// FailLevel is the container nesting level at which the first defect was met (0 = at top-level scalar/string).
 	FailLevel int
@@ -201,11 +201,11 @@ func walk(b []byte, t int8, level int, r *Result) (int, int) {
 		}
 		r.Fields++
 		sz := int64(be32(b))
-		r.acq(sz)
 		if sz >= 1<<31 {
 			r.FailLevel = level
 			return 0, NEGATIVE_SIZE
 		}
+		r.acq(sz)
 		if int64(len(b)) < 4+sz {
 			r.FailLevel = level
 			return 0, TRUNCATED
@@ -257,15 +257,13 @@ func walk(b []byte, t int8, level int, r *Result) (int, int) {
 		r.Fields++
 		kt, vt, sz := int8(b[0]), int8(b[1]), int64(be32(b[2:]))
 		kf, vf := FixedSize(kt), FixedSize(vt)
-		if kf > 0 && vf > 0 {
-			r.acq(sz * int64(kf+vf))
-		}
 		if sz >= 1<<31 {
 			r.FailLevel = level
 			return 0, NEGATIVE_SIZE
 		}
 		if kf > 0 && vf > 0 {
 			tot := sz * int64(kf+vf)
+			r.acq(tot)
 			if int64(len(b)) < 6+tot {
 				r.FailLevel = level
 				return 0, TRUNCATED
@@ -294,15 +292,13 @@ func walk(b []byte, t int8, level int, r *Result) (int, int) {
 		r.Fields++
 		et, sz := int8(b[0]), int64(be32(b[1:]))
 		ef := FixedSize(et)
-		if ef > 0 {
-			r.acq(sz * int64(ef))
-		}
 		if sz >= 1<<31 {
 			r.FailLevel = level
 			return 0, NEGATIVE_SIZE
 		}
 		if ef > 0 {
 			tot := sz * int64(ef)
+			r.acq(tot)
 			if int64(len(b)) < 5+tot {
 				r.FailLevel = level
 				return 0, TRUNCATED
